@@ -23,7 +23,7 @@ from .codegen import (
 )
 from .error import InvalidTypes
 from .origin import NO_ORIGIN, Origin
-from .serialize import TYPE_KEY, DataClassSerializeMixin
+from .serialize import TYPE_KEY, DataClassSerializeMixin, SerializationOption
 from .types import get_cls_all_fields, get_cls_child_fields, get_cls_props
 from .typing import Field, FieldTypeInfo, check_annotations, is_instance
 
@@ -294,27 +294,22 @@ class ASTNode(DataClassSerializeMixin):
         return new_obj
 
     def __post_serialize__(self, d: dict[str, Any]) -> dict[str, Any]:
-        # Run first, otherwise _children will be dropped from the output
-        out = super(ASTNode, self).__post_serialize__(d)
+        options = self._get_serialization_options()
 
-        if (
-            self._get_serialization_options().get(AST_SERIALIZE_DIALECT_KEY)
-            == ASTSerializationDialects.AST_EXPLORER
-        ):
-            out["_children"] = []
-            out["_children"].extend([f.name for f in get_cls_child_fields(self.__class__)])
+        # Dialect specific keys are added before the common post processing,
+        # so that the key sorting and type tag options apply to them as well
+        if options.get(AST_SERIALIZE_DIALECT_KEY) == ASTSerializationDialects.AST_EXPLORER:
+            d["_children"] = [f.name for f in get_cls_child_fields(self.__class__)]
 
-        if (
-            self._get_serialization_options().get(AST_SERIALIZE_DIALECT_KEY)
-            == ASTSerializationDialects.AST_TEST
-        ):
-            out.get("origin", {})["source"] = {
-                TYPE_KEY: "Source",
-                "source_uri": "",
-                "source_type": "",
-            }
+        if options.get(AST_SERIALIZE_DIALECT_KEY) == ASTSerializationDialects.AST_TEST:
+            source_stub = {}
+            if not options.get(SerializationOption.SKIP_CLASS, False):
+                source_stub[TYPE_KEY] = "Source"
+            source_stub["source_type"] = ""
+            source_stub["source_uri"] = ""
+            d.get("origin", {})["source"] = source_stub
 
-        return out
+        return super(ASTNode, self).__post_serialize__(d)
 
     @classmethod
     def get(
